@@ -87,6 +87,12 @@ def check_domain(d, how, full=True):
         pr.append(('stale', '%s: dr*dk*length = %.17g, not pi (conjugate spacing stale: dr=%.6g dk=%.6g length=%d)' % (how, prod, d.dr, d.dk, L)))
     if pr:
         return pr
+    if hasattr(d, 'long_r'):          # the column view of r that PRISM.cost multiplies by
+        lr = np.asarray(d.long_r)
+        if lr.shape != (L, 1, 1) or not np.array_equal(lr[:, 0, 0], np.asarray(d.r)):
+            pr.append(('stale', '%s: long_r is not the current r grid as a column (max dev %.3g)' % (
+                how, float(np.max(np.abs(lr.reshape(-1)[:L] - np.asarray(d.r)))) if lr.size >= L else float('nan'))))
+            return pr
     # indistinguishable from a fresh Domain with the same length and dr
     F = D(length=L, dr=d.dr)
     if len(F.r) != L or len(F.k) != L:
@@ -155,6 +161,18 @@ def check_domain(d, how, full=True):
                        % (how, nm, float(np.max(np.abs(np.asarray(R2) - 2.0 * R1_snap))))))
         if not np.array_equal(np.asarray(R1), R1_snap):
             pr.append(('buffer', '%s: the array returned by the first %s call changed when %s was called again' % (how, nm, nm)))
+    # a stack of functions (n, length): when it is accepted, every row is the transform of that row
+    if L >= 2:
+        stack = np.stack([np.asarray(v32, dtype=np.float64), np.cos(0.3 * x) / (1.0 + x)])
+        for which in (0, 1):
+            fn = d.to_fourier if which == 0 else d.to_real
+            try:
+                out2 = np.asarray(fn(stack.copy()))
+            except Exception:
+                continue              # refusing 2-D input is fine
+            rows = np.stack([fn(stack[0].copy()), fn(stack[1].copy())])
+            if out2.shape != rows.shape or float(np.max(np.abs(out2 - rows))) > 1e-12 * max(1e-300, float(np.max(np.abs(rows)))):
+                pr.append(('stack', '%s: %s of a (2, length) stack is not the transform of each row' % (how, fn.__name__)))
     if pr:
         return pr
     # linearity on pairs
@@ -319,6 +337,17 @@ def case_marray(rec, case):
                     probs.append(('marray', 'MatrixArray_%s: pair (%d,%d) of rank %d is not the 1-D transform of that pair function' % (direction, i, j, rank)))
         if not np.array_equal(M.data, np.transpose(M.data, (0, 2, 1))):
             probs.append(('marray', 'MatrixArray_%s: result not symmetric (rank %d)' % (direction, rank)))
+        # a transform that fails (array of another length) leaves flag and data alone, and the array still works afterwards
+        if L >= 2 and src in (S.Real, S.Fourier):
+            W = sym_marray(rank, L + 1, src)
+            wsnap = W.data.copy()
+            try:
+                fn(W)
+                probs.append(('marray', 'MatrixArray_%s accepted an array of length %d on a domain of length %d' % (direction, L + 1, L)))
+            except Exception:
+                if W.space != src or not np.array_equal(W.data, wsnap):
+                    probs.append(('marray', 'a failed MatrixArray_%s (array of length %d, domain of length %d) changed the flag or the data of the array'
+                                  % (direction, L + 1, L)))
         # refuses when already in the target space, operand untouched
         snap = M.data.copy()
         try:
@@ -410,6 +439,18 @@ def bfs(rec, depth):
                 closed = False
                 continue
             for op in SET_OPS:
+                # a shallow copy of the Domain reconfigured: the original must not notice
+                before = dom_digest(d)
+                sh = copy.copy(d)
+                try:
+                    apply_set(sh, op)
+                except Exception:
+                    pass
+                if dom_digest(d) != before or check_domain(d, 'parent', full=False):
+                    fail(rec, {'kind': 'hist', 'start': start, 'ops': hist + [op]},
+                         [('copy', 'start %r; %s: after copy.copy(domain).%s = %r the ORIGINAL domain changed' % (
+                             start, '; '.join('%s=%r' % (o[0], o[1]) for o in hist), op[0], op[1]))])
+                    break
                 e = copy.deepcopy(d)
                 apply_set(e, op)
                 rec.trans()
